@@ -45,7 +45,8 @@ RULE = ("cases: a drawing (model Poincare / half-plane / Klein, or a ProjectiveD
         "coordinates - star-shaped with random radii (non-convex), randomly permuted "
         "(self-intersecting), regular about a random centre, with an edge on a diameter / "
         "vertical line, with an edge on a circle of radius 80(1+-d), d log-uniform in "
-        "[0.021,1], or i.i.d. Klein points, or integer projective coordinates - and pulled back "
+        "[0.021,1], or i.i.d. Klein points, or integer projective coordinates, or with some / all "
+        "vertices ideal - and pulled back "
         "by the harness' inverse of the drawing transform, entered through Klein / Poincare / "
         "half-plane / projective coordinates with random (also negative) scales. The oracle "
         "recomputes transform @ object itself and reads the artists in drawing.ax. "
@@ -64,7 +65,13 @@ ASSUMPTIONS = [
     "for endpoints inside the default view (|x| <= 7.2); the horizontal gap is reported in "
     "labels, not asserted; horocycles of Euclidean radius >= 0.98*80 with a finite centre are "
     "not judged",
-    "interior vertices (Klein radius of the displayed vertices <= ~0.99996); float64 only",
+    "interior vertices have Klein radius <= ~0.99996 after the drawing transform; every "
+    "*displayed* ideal point (geodesic endpoint, horosphere centre, ideal polygon vertex) is "
+    "either exactly the half-plane point at infinity (exact data (s,s,0), no transform) or at "
+    "angular distance >= 0.06 from it: an ideal point equal to it only up to rounding has no "
+    "well-conditioned half-plane coordinates (same bound as C01/C14); float64 only",
+    "objects with ideal points are reproduced to sqrt(eps)-level accuracy only (tolerance "
+    "2e-6 (1+r) in the Poincare model instead of 1e-9 (1+r)); half-plane 2e-5 (1+r) throughout",
     "Drawing3D, draw_nonaff_polygon, draw_line, draw_boundary_arc, CP1Drawing are outside the "
     "statement",
 ]
@@ -756,6 +763,15 @@ def geodesic_case(draw):
     return case
 
 
+def either_order(V, want):
+    """worst coordinate difference between the two-point piece V and `want`, in the better
+    of the two orders (a stand-alone straight piece has no direction)"""
+    V = np.asarray(V, dtype=float)
+    if V.shape != want.shape:
+        return np.inf
+    return min(float(np.max(np.abs(V - want))), float(np.max(np.abs(V[::-1] - want))))
+
+
 def expected_arc(model, c, r, p, q):
     """(theta_start, extent) in radians of the counter-clockwise arc from p to q or q to p
     that is the geodesic between them"""
@@ -867,8 +883,8 @@ def body_geodesic(case, ctx):
             if model == "poincare":
                 tol = (2e-7 if obj == "geodesic" else 1e-9) * 2
                 ctx.small("straight Poincare geodesic is the chord of its endpoints",
-                          np.abs(V - np.array([p, q])) / tol, 1.0, k=k, got=V, want=[p, q],
-                          radius=r)
+                          either_order(V, np.array([p, q])) / tol, 1.0, k=k, got=V,
+                          want=[p, q], radius=r)
                 continue
             # half-plane: vertical line through the on-screen endpoint (deliberate)
             lo, hi = XLIM_HP[0] * (1 + 2 * OFF), XLIM_HP[1] * (1 + 2 * OFF)
@@ -1231,8 +1247,8 @@ def body_horo(case, ctx):
             ctx.check(pa[0] == "path" and pa[2] == [D.MOVETO, D.LINETO],
                       "arc of a horocycle centred at infinity is a straight piece", kind=pa[0])
             sc = 1 + np.max(np.abs(Q[k]))
-            ctx.small("straight piece joins the endpoints", np.abs(pa[1] - Q[k]) / (2e-5 * sc),
-                      1.0, k=k, got=pa[1], want=Q[k])
+            ctx.small("straight piece joins the endpoints",
+                      either_order(pa[1], Q[k]) / (2e-5 * sc), 1.0, k=k, got=pa[1], want=Q[k])
             ctx.label("flat-arc")
             continue
         if r > THRESH * (1 - BAND):
